@@ -6,7 +6,9 @@ import (
 	"runtime"
 	"sort"
 	"strconv"
+	"strings"
 	"sync"
+	"sync/atomic"
 	"testing"
 	"time"
 
@@ -206,11 +208,14 @@ func c19ServerMsg(op c19Op) mocrelay.ServerMsg {
 	panic(op.Kind)
 }
 
+// ids of more than 64 bytes that agree in their first 64 (a pubkey followed by a name)
+var c19LongID = strings.Repeat("7f", 32)
+
 func c19DrawOp(t *rapid.T, label string, sess int) c19Op {
 	kinds := []string{"REQ", "REQ", "REQ", "CLOSE", "CLOSE", "COUNT", "EVENT", "EVENT", "AUTH",
 		"SRV-EOSE", "SRV-EVENT", "SRV-NOTICE", "SRV-OK", "SRV-AUTH", "SRV-COUNT", "SRV-CLOSED", "SRV-CLOSED", "SRV-NIL"}
 	op := c19Op{Sess: sess, Kind: rapid.SampledFrom(kinds).Draw(t, label+"op")}
-	op.ID = rapid.SampledFrom([]string{"a", "b", "c", ""}).Draw(t, label+"id")
+	op.ID = rapid.SampledFrom([]string{"a", "b", "c", "", c19LongID + ":home", c19LongID + ":mentions", c19LongID}).Draw(t, label+"id")
 	if op.Kind == "EVENT" || op.Kind == "AUTH" {
 		op.K = rapid.SampledFrom([]int64{0, 1, 1, 7, 30000, 65535, 65536, 65537, 70000, 4464, -1}).Draw(t, label+"k")
 	}
@@ -600,6 +605,7 @@ func TestC19Churn(t *testing.T) {
 		rounds := rapid.IntRange(100, 600).Draw(t, "rounds")
 		pipelined := rapid.IntRange(0, 32).Draw(t, "reqs_pushed_while_ending")
 		desc := map[string]any{"mode": "churn", "sessions_per_wave": wave, "rounds": rounds, "reqs_pushed_while_ending": pipelined}
+		var stuck atomic.Bool
 		type live struct {
 			cancel context.CancelFunc
 			recv   chan mocrelay.ClientMsg
@@ -639,7 +645,11 @@ func TestC19Churn(t *testing.T) {
 				runtime.Gosched()
 			}
 			l.cancel()
-			<-l.ret
+			select {
+			case <-l.ret:
+			case <-time.After(stepTimeout):
+				stuck.Store(true)
+			}
 			<-done
 			close(l.stop)
 		}
@@ -661,7 +671,11 @@ func TestC19Churn(t *testing.T) {
 					next[i] = start()
 					// one subscription each, confirmed by a COUNT round trip? no reply is needed:
 					// the REQ is handed over synchronously
-					next[i].recv <- &mocrelay.ClientReqMsg{SubscriptionID: "s", ReqFilters: []*mocrelay.ReqFilter{{}}}
+					select {
+					case next[i].recv <- &mocrelay.ClientReqMsg{SubscriptionID: "s", ReqFilters: []*mocrelay.ReqFilter{{}}}:
+					case <-time.After(stepTimeout):
+						stuck.Store(true)
+					}
 				}(i)
 			}
 			for _, l := range cur {
@@ -678,8 +692,17 @@ func TestC19Churn(t *testing.T) {
 			// quiescent once every session's REQ has crossed the middleware: a CLOSE of an unknown
 			// id handed over afterwards is taken only when the REQ before it has been processed
 			for _, l := range cur {
-				l.recv <- &mocrelay.ClientCloseMsg{SubscriptionID: "sync"}
-				l.recv <- &mocrelay.ClientCloseMsg{SubscriptionID: "sync"}
+				for k := 0; k < 2 && l != nil; k++ {
+					select {
+					case l.recv <- &mocrelay.ClientCloseMsg{SubscriptionID: "sync"}:
+					case <-time.After(stepTimeout):
+						stuck.Store(true)
+					}
+				}
+			}
+			if stuck.Load() {
+				desc["failed_round"] = r
+				hx.Fail(t, ev.Failure{Property: "C19", Signature: "stalled", Clause: "every client and server message passes through (sessions starting and ending at the same moment: the middleware stopped taking messages / a session did not end)", Case: desc, Observed: "no progress within 20 s"})
 			}
 			if c, q := gaugesNow(); c != float64(len(cur)) || q != float64(len(cur)) {
 				desc["failed_round"] = r
